@@ -166,10 +166,12 @@ def regenerate_gen(log):
 def coq_make(targets, log, jobs=8, timeout=3000):
     """Full .vo build (never -vos/-vok) of the given targets and their dependencies."""
     with BuildLock():
+        failed = regenerate_gen(log)
         regen_coqproject()
         rc, out = sh(["timeout", str(timeout), "make", f"-j{jobs}"] + targets, cwd=COQ,
                      timeout=timeout + 60)
     log.append(out)
+    coq_make.last_translate_failures = failed
     return rc == 0, out
 
 
@@ -325,16 +327,16 @@ class Check:
         hits = forbidden_scan()
         if hits:
             self.broken.append("forbidden constructs: " + "; ".join(hits[:5]))
-        failed = regenerate_gen(self.log)
-        for k in gen_kernels:
-            if k in failed:
-                self.broken.append(f"tie B: translator refused kernel {k}: {failed[k]}")
         targets = [props_file + "o"] + [t + "o" for t in extra_targets]
         names = theorem_names(props_file)
         for t in extra_targets:
             names += theorem_names(t)
         self.obligations += len(names)
         ok, out = coq_make(targets, self.log)
+        failed = getattr(coq_make, "last_translate_failures", {})
+        for k in gen_kernels:
+            if k in failed:
+                self.broken.append(f"tie B: translator refused kernel {k}: {failed[k]}")
         self.checker_cmds.append("make -C coq " + " ".join(targets) + "  (coqc 8.16.1, full .vo build)")
         if not ok:
             m = re.search(r'File "\./([^"]+)", line (\d+)[^\n]*\n((?:.*\n){0,6})', out)
@@ -363,6 +365,27 @@ class Check:
         if not ok:
             self.broken.append("model no longer extracts/compiles: " + out[-300:])
         return ok
+
+    # -- corpus
+    def run_witnesses(self, prefixes):
+        """Run the minimised defect witnesses of corpus/witnesses.py (each in its own process)
+        against /repo's working tree; a witness that fails is a concrete failing input."""
+        for pre in prefixes:
+            env = dict(os.environ)
+            env["PYTHONPATH"] = REPO
+            env["VERIF_REPO"] = REPO
+            rc, out = sh([sys.executable, os.path.join(VERIF, "corpus", "witnesses.py"), pre], timeout=600, env=env)
+            self.log.append(out)
+            for line in out.splitlines():
+                m = re.match(r"(w\w+): (ok|FAILS: (.*))$", line)
+                if not m:
+                    continue
+                self.evaluations += 1
+                self.count("corpus-witness")
+                if m.group(2) != "ok":
+                    self.failing_input(f"{self.prop}:witness:{m.group(1)}", f"corpus witness {m.group(1)}: {m.group(3)}",
+                                       {"witness": m.group(1), "observed": m.group(3),
+                                        "rerun": f"PYTHONPATH={REPO} /venv/bin/python {VERIF}/corpus/witnesses.py {m.group(1)}"})
 
     # -- verdict
     def replay_path(self, obj):
